@@ -63,7 +63,7 @@ def ratio_distribute(
         if total_ratio > 0:
             distributed = max(minimum, ceil(ratio * total_remaining / total_ratio))
         else:
-            distributed = total_remaining
+            distributed = max(0, total_remaining)
         append(distributed)
         total_ratio -= ratio
         total_remaining -= distributed
